@@ -346,7 +346,11 @@ func run(srv *proxy.Server, cli *proxy.Client, d *down, op *Op) {
 		emit("R close err=%v", err != nil)
 	case "save":
 		t := op.Text
-		err := srv.DidSave(ctx, &protocol.DidSaveTextDocumentParams{TextDocument: protocol.TextDocumentIdentifier{URI: uri}, Text: &t})
+		tp := &t
+		if op.Nil {
+			tp = nil // a save notification without the text (the client did not honour includeText)
+		}
+		err := srv.DidSave(ctx, &protocol.DidSaveTextDocumentParams{TextDocument: protocol.TextDocumentIdentifier{URI: uri}, Text: tp})
 		emit("R save err=%v", err != nil)
 	case "pubdiag":
 		var ds []protocol.Diagnostic
